@@ -100,7 +100,7 @@ class SSCChart(BaseChart):
 
         for param in iterator:
             key = param.key.upper()
-            if key in BaseSimfile.MULTI_VALUE_PROPERTIES:
+            if key in BaseSimfile.MULTI_VALUE_PROPERTIES and param.value is not None:
                 self[key] = ":".join(param.components[1:])
             else:
                 self[key] = param.value
@@ -224,7 +224,7 @@ class SSCSimfile(BaseSimfile):
         partial_chart: Optional[SSCChart] = None
         for param in parser:
             key = param.key.upper()
-            if key in BaseSimfile.MULTI_VALUE_PROPERTIES:
+            if key in BaseSimfile.MULTI_VALUE_PROPERTIES and param.value is not None:
                 value: Optional[str] = ":".join(param.components[1:])
             else:
                 value = param.value
